@@ -30,11 +30,11 @@ def roll_over_fns(sem, vs):
 
 def run(prog, world, sem, rep):
     rep.rule("C08.a", "the batch roll-over (the function creating a history entry with released = false) is called only through the true-edge of "
-             "the strict test (Env.block.time - State.last_unbonded_time) > Parameters.epoch_period", 2)
+             "the strict test (Env.block.time - State.last_unbonded_time) > Parameters.epoch_period", 1)
     rep.rule("C08.b", "a history entry is stored with released = true only when it exists, its time <= now - Parameters.unbonding_period, and it "
              "was read as not released (all in-loop effects of the releasing loop are behind these three observations)", 3)
     rep.rule("C08.c", "CurrentBatch.id only ever changes by the roll-over's +1 (every writer of CURRENT_BATCH outside instantiate preserves it or "
-             "stores the rolled-over value); the roll-over sets State.last_unbonded_time := Env.block.time", 3)
+             "stores the rolled-over value); the roll-over sets State.last_unbonded_time := Env.block.time", 2)
     rep.rule("C08.d", "the history map has exactly two kinds of reachable writers: the roll-over (new key = CurrentBatch.id, released = false) and the "
              "releaser, which rewrites the key it just read with released = true and its amounts/applied rates/time unchanged; "
              "State.last_processed_batch is only assigned that key", 6)
@@ -69,7 +69,7 @@ def run(prog, world, sem, rep):
         g, d = site_guarded(sem, caller, bb, fp)
         rep.ob("C08.a", "roll-over call in %s" % caller.body.path, g,
                "roll-over reachable without (now - last_unbonded_time) > epoch_period: %s" % d if not g else d, where(caller.body, bb),
-               key="C08.a | %s" % caller.body.path)
+               key="C08.a | %s" % caller.body.path, fkey="roll-over call site under Receive")
     if n == 0:
         rep.ob("C08.a", "roll-over call sites", False, "anchor-lost: roll-over never called under Receive")
 
@@ -106,7 +106,7 @@ def run(prog, world, sem, rep):
                 bad.append(show(a, 3))
             rep.ob("C08.c", "hub::%s CURRENT_BATCH.id in %s" % (vn, v.body.path), not bad,
                    "batch id written with %s" % bad if bad else "id preserved or rolled over by +1", where(v.body, bb),
-                   key="C08.c | hub::%s | %s" % (vn, v.body.path))
+                   key="C08.c | hub::%s | %s" % (vn, v.body.path), fkey="hub::%s CURRENT_BATCH.id" % vn)
 
     # ---------------------------------------------------------------- C08.e (roll-over body, function-local terms)
     entries = ro[ro_path]
